@@ -316,6 +316,7 @@ func (fr *frame) call(c *ssa.CallCommon, instr ssa.Value, st *state, pos string)
 	case fc != nil:
 		return fr.modularCall(fc, callee, c, args, cl, st, pos)
 	}
+	fr.vc.uncontracted[callee] = true
 	return fr.havocCall(c, instr, st, "call to "+callee.String()+" (no contract)")
 }
 
